@@ -342,6 +342,20 @@ theorem unpack_named_last_wins (names wires : List Nat) (l r t : Nat)
     simpa [List.append_assoc] using this
 
 
+/-- The hypothesis `hstar` of `unpack_named_last_wins` cannot be dropped: when the STARRED name
+    occurs again to its right (`*a, a = xs`), `_assign_array` (like the checker and `_assign_tuple`)
+    binds the starred target last, so `a` ends up as the starred array (wire 5) whereas Python,
+    binding left to right, leaves `a` = the last element (wire 6).  Known deviation of /repo (the
+    program is rejected with a type error when `a` is then used as an element), see notes/C19.md. -/
+theorem unpack_named_last_wins_needs_hstar :
+    ¬ (∀ (names wires : List Nat) (l r t : Nat), names.length = l + 1 + r → wires.length = names.length →
+        t < names.length → (∀ t', t < t' → t' < names.length → names[t']? ≠ names[t]?) →
+        lookupName (bindTargets names wires (assignOrder l r true)) names[t]! = wires[t]?) := by
+  intro h
+  have := h [0, 0] [5, 6] 0 1 1 rfl rfl (by decide) (by intro t' h1 h2; simp at h2; omega)
+  revert this
+  decide
+
 /-- **C19 (iteration)**: a `for` loop over an array (`ArrayIter.__next__` until `nothing`) yields
     the elements `0 … n-1` in index order, each exactly once, then stops — and for linear arrays the
     final `discard_all_borrowed` succeeds because every element has been handed out.  Any fuel
@@ -358,6 +372,14 @@ theorem comp_order (xs : List α) (hn : xs.length < 2 ^ 63) :
     xs.foldlM compStep (compInit xs.length) = .ok (ofList xs, (xs.length : Int)) := by
   have := comp_from xs.length hn xs [] (by simp)
   simpa [compInit, newAllBorrowed, ofList] using this
+
+/-- **C19 (iteration over a frozenarray)**: `FrozenarrayIter.__next__` (what a `for` loop or a
+    comprehension over a comptime list / `mutable_copy()` runs) yields the elements `0 … n-1` in
+    index order, each exactly once, then stops; no index ever goes out of bounds. -/
+theorem frozen_iter_order (xs : List α) (hn : xs.length < 2 ^ 63) (extra : Nat) :
+    fdrain (xs.length + 1 + extra) ⟨xs, 0⟩ = .ok (some xs) := by
+  have := fdrain_from xs hn xs.length 0 extra (by omega)
+  simpa using this
 
 /-- **C19 (array comprehension, whole loop)**: the comprehension loop as the compiler lowers it —
     `new_all_borrowed n` and counter `0` fed into a `TailLoop` over the iterator, `__next__` per
@@ -425,10 +447,18 @@ example : setitem false (ofList [10, 20, 30]) 2 7 = .ok (ofList [10, 20, 7]) := 
 example : IsI64 (-1) ∧ InRange 3 2 ∧ ¬ InRange 3 (-1) := by unfold IsI64 InRange; omega
 /-- `x, *r, x = xs` (names 0, 100, 0; wires 5, 6, 7): x ends up with the wire of the right target -/
 example : lookupName (bindTargets [0, 100, 0] [5, 6, 7] (assignOrder 1 1 true)) 0 = some 7 := by decide
+/-- the hypotheses of `unpack_named_last_wins` are satisfiable: `x, *r, x` with t = the right `x` -/
+example : lookupName (bindTargets [0, 100, 0] [5, 6, 7] (assignOrder 1 1 true)) ([0, 100, 0][2]) = [5, 6, 7][2]? :=
+  unpack_named_last_wins [0, 100, 0] [5, 6, 7] 1 1 2 rfl rfl (by decide)
+    (by intro t' h1 h2; have : t' = 0 ∨ t' = 2 := by simp at h1; omega
+        rcases this with rfl | rfl <;> decide)
+    (by intro t' h1 h2; simp at h2; omega)
+example : assignOrder 2 2 true = [0, 1, 3, 4, 2] := by decide
 example : pyUnpack [1, 2, 3, 4, 5] 1 2 = ([1], [2, 3], [4, 5]) := by decide
 example : drain true 4 ⟨ofList [10, 20, 30], 0⟩ = .ok (some [10, 20, 30]) := by rfl
 example : runComp (emitCompLoop 2) (· + 1) 3 (ofList [10, 20]) = .ok (some (vArr (ofList [11, 21]))) := by
   rfl
+example : fdrain 4 ⟨[10, 20, 30], 0⟩ = .ok (some [10, 20, 30]) := by rfl
 example : [10, 20].foldlM compStep (compInit 2) = .ok (ofList [10, 20], 2) := by rfl
 example : pyRun ([1, 2, 3], []) [.write 0 9, .read 0, .read 2] = some ([9, 2, 3], [9, 3]) := by
   decide
